@@ -22,7 +22,8 @@ RULE = (
     "second codec for the same type under another reference, codec taking over str for new writes, subclass of the builtin "
     "string codec that inherits its reference} applied between write and read and, in generated order, in the fresh reading "
     "process; store in {local, local+LRU, DBFS over the fake}. The value goes through a kept data function, dds.load in the "
-    "same process, a second keep (served from the store) and dds.load in a fresh process. Non-trivial = at least one "
+    "same process, a second keep (served from the store) and dds.load in a fresh process; in some cases another codec then takes over "
+    "the type and the function is kept and loaded on a second, fresh store of the same process. Non-trivial = at least one "
     "registration between write and read or in the reader, or a value that is empty / non-ASCII / contains CR / is a frame "
     "with a non-default index; distinct by (value, registrations, store)."
 )
@@ -114,6 +115,10 @@ def case_strategy():
             case["ops"] = [o for o in ops if o != "altstr"]
             if "altstr" not in case["reader"]:
                 case["reader"] = ["altstr"] + case["reader"]
+        elif v["k"] in ("str", "moon") and store != "dbfs" and draw(st.integers(0, 2)) == 0:
+            take = "altstr" if v["k"] == "str" else "moon_alt"
+            if take not in case["ops"] and take not in case["pre"]:
+                case["second_store"] = take
         return case
 
     return gen()
@@ -217,6 +222,16 @@ def _write_phase(case, store_dir):
     step("load in the writing process", lambda: dds.load("/out/v"))
     holder.VALUE = "<<must not be recomputed>>"
     step("second keep (served from the store)", mod.f)
+    if case.get("second_store"):
+        # another codec takes over the type, then the same function is kept on a second, fresh store in the same process:
+        # the same key now designates a blob written by the other codec
+        H.register(store, case["second_store"], codecs)
+        worker.cmd_set_store(kind=case["store"], dir=store_dir + "_second", cache=2 if case["store"] == "local-lru" else None, raw=True)
+        holder.VALUE = value
+        step(f"keep on a second store after {case['second_store']} took over the type", mod.f)
+        step("load from the second store", lambda: dds.load("/out/v"))
+        holder.VALUE = "<<must not be recomputed>>"
+        step("second keep on the second store", mod.f)
     out["log"] = list(H.USE_LOG)
     return out
 
@@ -309,7 +324,7 @@ def check_case(case, ev=None, scratch=None):
             if v["k"] == "str" and len(v["v"]) > 200:
                 slim = dict(case, value={"k": "str", "v": v["v"][:50] + f"...({len(v['v'])} chars)"})
             ev.case(slim, bool(case["ops"] or case["reader"] or special),
-                    features=["type:" + v["k"], "store:" + case["store"]] + ["between:" + o for o in case["ops"]] + (["special-value"] if special else []) + (["orphan-blob+codec-takeover"] if case.get("orphan") else []),
+                    features=["type:" + v["k"], "store:" + case["store"]] + ["between:" + o for o in case["ops"]] + (["special-value"] if special else []) + (["orphan-blob+codec-takeover"] if case.get("orphan") else []) + (["second-store-after-takeover"] if case.get("second_store") else []),
                     key=case)
     finally:
         if own:
